@@ -550,6 +550,14 @@ theorem failed_tx_runs_on_a_dropped_branch :
     Facts.evmApplyTxBranchCondition = "k.hooks != nil" ∧ Facts.evmApplyTxCommitsOnlyOnSuccess = true ∧
     Facts.appInstallsEvmHooks = true := by decide
 
+/-- the same one level down: the Cosmos message a stateful precompile runs does so on a branch of the state written back
+    only when the message succeeded (regenerated fact, all nine methods) — so a message that fails half way (the
+    distribution hooks of a delegation have run, the bank refuses the transfer) leaves nothing, whatever the calling
+    contract does with the failed call; `applyTx` is the shape of that too (`failed_tx_discards_everything`) -/
+theorem precompile_messages_run_on_a_branch :
+    Facts.precompileMessageOnBranch.all (fun p => p.2 == "message-on-branch") = true ∧
+    Facts.precompileMessageOnBranch.length = 9 := by decide
+
 def k0 : Keeper := { exist := fun a => a == 0, bal := fun a => if a = 0 then 100 else 0, nonce := fun _ => 0,
                      store := fun _ _ => 0, supply := 0 }
 
